@@ -14,12 +14,12 @@ META = {
                 note="Trusted: CPython generator semantics, the harness leaf templates, the trace monitor. Bounds: forests <= 4 leaves (depth <= 2) / <= 3 leaves (depth 3), horizon 3 recurs; bound 3 only on forests of <= 2 leaves."),
     "C02": dict(cat="model_checking", eng="E1-sched", ref="3 (scheduler group)",
                 tech="stateless deviation-bounded exploration + exit-window order monitor",
-                text="Same closed system, alphabet focused on stops (raise, failing enter, limit, remove of adjacent / far siblings and of the parent, extend, extend/remove reaching into a sibling DoDoer from outside its pass): inside every scheduler's exit window the alive children must exit in reverse enter order, completely, before do() returns/raises.",
+                text="Same closed system, alphabet focused on stops (raise, failing enter, limit, remove of adjacent / far siblings, of the scheduler's own doers list and of the parent, extend, extend/remove reaching into a sibling DoDoer from outside its pass, a doer that yields 2T and so is not due at the stop; runs through do() or driven by hand with enter / recur(deeds=) / exit(deeds=)): inside every scheduler's exit window the alive children must exit in reverse enter order, completely, before do() returns/raises.",
                 note="Trusted: monitor; refcount-timed finalisation is observed relative to do() returning (deterministic in CPython). Ordering after extend() from a running doer is a recorded KNOWN-FINDING."),
     "C03": dict(cat="model_checking", eng="E1-sched", ref="3 (scheduler group)",
                 tech="stateless deviation-bounded exploration + statement-derived reference cycle model in lock step",
                 text="All small forests x all yield/return scripts within the deviation bound; the per-doer (cycle, tyme) sequence and within-cycle order must equal a 40-line reference model transcribed from the statement (float-exact).",
-                note="Trusted: reference model. Tocks from {0,None,T/2,T,1.5T,2T,2.5T,0.1}; T in {1,0.25,0.1}; start in {0,2.5}; a sweep job enumerates a 5x4x8x2 configuration grid."),
+                note="Trusted: reference model. Tocks from {0,None,T/2,T,1.5T,2T,2.5T,0.1}; T in {1,0.25,0.1}; start in {0,2.5}; a sweep job enumerates a 5x5x8x2 configuration grid (start tymes incl. a negative one)."),
     "C04": dict(cat="model_checking", eng="E1-sched differential", ref="3 (scheduler group)",
                 tech="stateless exploration of flat runs, each replayed under every regrouping into tock-0 DoDoers (differential)",
                 text="Every flat execution within the bound is re-run under all 2/13/69/335 regroupings of its 1..4 leaves with the recorded decisions; traces, done flags, completion cycle must be identical; leaves may also complete inside enter (generator functions: with True, False or no value). No reference model needed.",
@@ -30,27 +30,27 @@ META = {
                 note="An idle always-DoDoer's done flag after a forced close is excluded (pinned by hio's own test_dodoer_always), also when it was given a doer from outside after its last recur (runtime extension is C06's subject)."),
     "C06": dict(cat="model_checking", eng="E1-sched", ref="3 (scheduler group)",
                 tech="stateless deviation-bounded exploration of extend/remove histories + list model of membership",
-                text="extend/remove of self, adjacent and far siblings, completed, absent and duplicate doers, new doers that complete inside enter, from inside running doers at every step, owners Doist and DoDoer(always); timing clauses and scheduler.doers vs list model checked after every call.",
+                text="extend/remove of self, adjacent and far siblings, the scheduler's own doers list, completed, absent and duplicate doers, new doers that complete inside enter, from inside running doers at every step, owners Doist and DoDoer(always); timing clauses and scheduler.doers vs list model checked after every call.",
                 note="extend from inside enter is outside the quantifier. Re-adding a self-removed still-running doer is not in the alphabet."),
     "C08": dict(cat="model_checking", eng="E3 op-sequence enumeration", ref="3 (C08)",
                 tech="exhaustive enumeration of all timer operation sequences up to a depth against a start/stop model",
-                text="All sequences (depth 5/7) of advance/rewind/start/restart on a real Tymer are compared float-exactly with a model written from the statement, and a boundary sweep places tyme exactly on, one and two ulps around every start and stop for 64 non-dyadic starts x 123 durations x {no restart, restart(), restart(d)}; all sequences (depth 6/8) of clock jumps/reads/starts on a real MonoTimer (retro True/False) are checked for monotone elapsed, sticky expired and remaining consistent with expired whatever the order in which the three are read.",
+                text="All sequences (depth 5/7) of advance/rewind/start/restart/wind on a real Tymer are compared float-exactly with a model written from the statement, and a boundary sweep places tyme exactly on, one and two ulps around every start and stop for 64 non-dyadic starts x 123 durations x {no restart, restart(), restart(d)}; all sequences (depth 6/8) of clock jumps/reads/starts on a real MonoTimer (retro True/False) are checked for monotone elapsed, sticky expired, remaining consistent with expired whatever the order in which the three are read, and elapsed 0 at the clock value a period was started at.",
                 note="Fake clock installed as hio.help.timing.time; dyadic values keep MonoTimer arithmetic exact."),
     "C09": dict(cat="model_checking", eng="E1 over FakeNet", ref="3 (TCP group), 2 (FakeNet)",
                 tech="stateless deviation-bounded exploration of kernel answers (partial send/short read/would-block/TLS want) on real tcp Client/Server over an in-memory kernel model",
-                text="Real tcp Client/ClientTls (built with application-supplied empty rxbs/txbs buffers, which the harness fills and observes) and Server/ServerTls exchange scripted payloads over FakeNet; every execution with up to 3 (quick) / 5 (thorough) non-default kernel answers is run; after every service round received bytes must be a prefix of transmitted bytes in both directions, wire logs must equal the bytes the kernel accepted/delivered, and healthy servicing must deliver everything.",
+                text="Real tcp Client/ClientTls (built with application-supplied empty rxbs/txbs buffers, which the harness fills and observes) and Server/ServerTls exchange scripted payloads over FakeNet (TLS may want the opposite direction at any send/recv; wire logs receive-only, transmit-only or both); every execution with up to 3 (quick) / 5 (thorough) non-default kernel answers is run; after every service round received bytes must be a prefix of transmitted bytes in both directions, wire logs must equal the bytes the kernel accepted/delivered, and healthy servicing must deliver everything.",
                 note="Trusted: FakeNet (its deterministic behaviour is compared call by call with real loopback sockets by vf/env/fakenet_conf.py, reported in evidence); TLS is a pass-through raising OpenSSL's want-read/want-write."),
     "C10": dict(cat="fault_enumeration", eng="E1 over FakeNet", ref="3 (TCP group)",
                 tech="exhaustive single (quick) / up to triple (thorough) fault placement: every connection-level errno, TLS EOF, handshake abort at every send/recv/handshake call, peer close/RST/half-close at every step boundary",
-                text="Server side with victim + sibling connection, client side against a scripted peer (which may also die right after its answer, with the answer still unread), plain and TLS, with and without a WireLog attached: service() must not raise, the victim must end cut off / aborted / removed-and-closed, the sibling's echo must complete.",
+                text="Server side with victim + sibling connection, client side against a scripted peer (which may also die right after its answer, with the answer still unread, or die and reconnect from the very same address), plain and TLS, with and without a WireLog attached: service() must not raise, the victim must end cut off / aborted / removed-and-closed, the sibling's echo must complete.",
                 note="'marked' accepts removal with the socket closed. Generic TLS protocol errors (certificate failure) are outside the property."),
     "C11": dict(cat="model_checking", eng="E2 BFS over FakeNet", ref="3 (TCP group)",
-                tech="explicit-state BFS over connect/handshake-pending/handshake-EOF/protocol-error/reset/replace/reopen/close event histories with socket-table invariant",
+                tech="explicit-state BFS over connect/handshake-pending/handshake-EOF/protocol-error/reset/receive-error/replace/port-taken/reopen/close event histories with socket-table invariant",
                 text="BFS to depth 5/7 over server and client event histories (plain and TLS); after Server.close()/reopen() every socket it created or accepted must be closed; a client never leaves an earlier socket open.",
                 note="Openness is observed on the fake sockets (explicit close() calls), never through garbage collection."),
     "C12": dict(cat="model_checking", eng="E1 full tree over FakeNet + virtual tyme", ref="3 (C12)",
-                tech="complete enumeration of all client activity timings per tick (3^9 and 2^13/2^16) against a statement-derived idle rule",
-                text="Real http.Server (plain and TLS servant) wound to a virtual Tymist; for every timing of client bytes relative to ticks the connection must be closed exactly at the first service at tyme >= last traffic + tymeout and never while traffic keeps arriving.",
+                tech="complete enumeration of all client activity timings per tick (3^9 and 2^13/2^16; request trickling, response draining, body of an HTTP/1.1 close request trickling) against a statement-derived idle rule",
+                text="Real http.Server (plain and TLS; servant built by the server itself or handed in with a wire log) wound to a virtual Tymist; for every timing of client bytes relative to ticks the connection must be closed exactly at the first service at tyme >= last traffic + tymeout and never while traffic keeps arriving.",
                 note="Traffic is stamped with the tyme of the service call that moved the bytes. Persistent connections are outside the property."),
     "C13": dict(cat="model_checking", eng="E3 differential", ref="3 (HTTP parsing group)",
                 tech="exhaustive enumeration of all <=2/3-cut partitions and byte-by-byte feeding of a message corpus; fragmented vs one-shot differential on the real parsers",
@@ -58,35 +58,35 @@ META = {
                 note="Equal escaping exceptions count as equal (C16 judges escapes)."),
     "C15": dict(cat="model_checking", eng="E3 + reference parser", ref="3 (C15)",
                 tech="exhaustive enumeration of event streams x line-terminator assignments x fragmentations x framing, against a WHATWG reference parser",
-                text="Streams of 1-3 events from 16 shapes, every per-line CRLF/LF/CR assignment (single events) or near-uniform assignment, every <=2/3-cut partition and byte-wise, close-delimited and chunked; events, last id and retry must equal the reference.",
+                text="Streams of 1-3 events from 16 shapes, every per-line CRLF/LF/CR assignment (single events) or near-uniform assignment, every <=2/3-cut partition and byte-wise, close-delimited and chunked (also the chunked wire cut at every position, framing included), and resumption on the same Respondent after a cut inside a line; events, last id and retry must equal the reference.",
                 note="Reference parser transcribed from the WHATWG algorithm (vf/ref/sse.py); streams end with a complete event; no BOM."),
     "C16": dict(cat="fault_enumeration", eng="E3 mutation enumeration over FakeNet", ref="3 (C16)",
-                tech="exhaustive enumeration of short byte strings, alphabet strings, all single mutations of a message corpus, targeted near-valid shapes, a request-target grammar, a Content-Type grammar and two-message sequences on one connection against WSGI server, bare server and client",
+                tech="exhaustive enumeration of short byte strings, alphabet strings, all single mutations of a message corpus, targeted near-valid shapes, a request-target grammar with query shapes, a Content-Type grammar, an event-stream field grammar and two-message sequences on one connection against WSGI server, bare server and client",
                 text="service() of http.Server, BareServer and http.Client must never raise for any enumerated input; a sibling connection must still be answered.",
                 note="Key = (system, innermost hio call site, exception type). Name resolution is owned by the harness (only numeric hosts and localhost resolve)."),
     "C17": dict(cat="exploration", eng="E3", ref="3 (C17)",
                 tech="exhaustive enumeration of bodies x chunk compositions x extensions x trailers and of all chunk-size strings up to a length",
-                text="All bodies <= 4/6 bytes over 4 byte values in every chunk composition decode exactly through both parsers; every chunk-size string <= 3/4 chars over 15 characters is accepted iff it is plain hex, and anything else must be reported as an error (a parser that silently waits for more chunk data has accepted the size).",
+                text="All bodies <= 4/6 bytes over 4 byte values in every chunk composition decode exactly through both parsers (one-shot, byte-wise, and the tail arriving together with the peer's close); every chunk-size string <= 3/4 chars over 15 characters, alone and followed by a chunk extension, is accepted iff it is plain hex, and anything else must be reported as an error (a parser that silently waits for more chunk data has accepted the size).",
                 note="Whitespace-padded hex sizes are don't-care (RFC 7230 BWS)."),
     "C07": dict(cat="model_checking", eng="E1 over a fake clock", ref="3 (C07)",
                 tech="stateless deviation-bounded exploration of clock behaviour (consumed time, sleep overshoot, backward steps, stalls) around the real Doist.do() real-time loop",
-                text="Doist(real=True) paced by MonoTimer runs on a fake clock; every execution with <= 2/3 deviations is checked: cycle k never starts before k tocks of true time; without clock steps the start times equal a lossless pacing model; tock set at construction or assigned before the run.",
+                text="Doist(real=True) paced by MonoTimer runs on a fake clock; every execution with <= 3/4 deviations (work per cycle up to 5T/2, sleep overshoot, backward steps incl. a sub-millisecond one and a stall, real time passing before the run) is checked: cycle k never starts before k tocks of true time; without clock steps the start times equal a lossless pacing model; with steps the same model with each deadline moved by exactly the real time a step can hide (counted from the previous expected clock reading); tock set at construction or assigned before the run.",
                 note="Fake clock installed as module global `time` of hio.base.doing and hio.help.timing; forward jumps excluded as in the statement."),
     "C14": dict(cat="exploration", eng="E3 product enumeration", ref="3 (C14)",
                 tech="exhaustive product enumeration of request specifications through the real Requester/Client and Requestant/buildEnviron, compared with the specification via a reference urlencoded reader",
-                text="9 methods x 7 paths x query dicts over 10 hostile atoms x header sets x 9 bodies (raw incl. all byte values, JSON, form) x explicit Content-Length: method, path, query arguments, headers and body bytes must be recovered; the same for the second request of a reused Requester after each of 3 earlier requests (form fields, JSON, raw body with headers and query).",
+                text="9 methods x 7 paths x query dicts over 10 hostile atoms x header sets (incl. an empty value) x 10 bodies (raw incl. all byte values, a latin-1 str, JSON, form) x explicit Content-Length: method, path, query arguments, headers and body bytes must be recovered; the same for the second request of a reused Requester after each of 3 earlier requests (form fields, JSON, raw body with headers and query).",
                 note="GET carries no body by design; header values are legal field values; form fields compared as body bytes only."),
     "C18": dict(cat="model_checking", eng="E1 over FakeNet + stdlib parser", ref="3 (C18)",
                 tech="stateless deviation-bounded exploration of request sequences x WSGI app behaviours x partial sends; wire bytes judged by an independent HTTP parser",
-                text="1-3 requests per connection (HTTP/1.0/1.1, keep-alive/close, pipelined or sequential), scripted WSGI apps (status, Content-Length exact/absent/short, empty pieces); the received byte stream must parse into exactly the expected responses in order, each self-delimiting while the connection stays open, closed iff not persistent.",
+                text="1-3 requests per connection (HTTP/1.0/1.1, keep-alive/close, pipelined, sequential, or sequential in two segments each), scripted WSGI apps (status, Content-Length exact/absent/short incl. ending inside a later piece, empty pieces, start_response called twice); the received byte stream must parse into exactly the expected responses in order, each self-delimiting while the connection stays open, closed iff not persistent.",
                 note="An unframed response to an HTTP/1.0 keep-alive request can only be delimited by closing (RFC 7230): expected as non-persistent."),
     "C19": dict(cat="model_checking", eng="E1 full tree over FakeNet", ref="3 (C19)",
                 tech="complete enumeration of scripted server behaviours per queued request (immediate, delayed, fragmented, redirecting, closing) against the real http.Client",
-                text="1-2/3 queued requests (each queued in one of 4 ways: qargs+body, raw dict, query inside the path, no query), plain and TLS-flavoured client, reconnectable or not; every assignment of 7-8 server behaviours (incl. a redirect without Location) and 4 redirect codes; every request goes out with exactly its own method, query and body; a plainly answered request yields a plain entry whatever happened before; no request bytes while an earlier response is unfinished; at most one response entry per request in order with tag and redirect history; https->http refused without contacting the plain listener; exactly one entry per request when the connection stays usable.",
+                text="1-2/3 queued requests (each queued in one of 5 ways: qargs+body, raw dict, query inside the path, no query, HEAD), plain and TLS-flavoured client, reconnectable or not; every assignment of 8-9 server behaviours (incl. a redirect without Location and a 204 without a length) and 4 redirect codes; every request goes out with exactly its own method, query and body; a plainly answered request yields a plain entry whatever happened before; no request bytes while an earlier response is unfinished; at most one response entry per request in order with tag and redirect history; https->http refused without contacting the plain listener; exactly one entry per request when the connection stays usable.",
                 note="Liveness is not demanded through a connection the server closed unless the client is reconnectable on its original connector."),
     "C20": dict(cat="model_checking", eng="E3 permutation enumeration", ref="3 (memo group)",
                 tech="exhaustive enumeration of gram sizes x header encodings x codes through the real Memoer.rend, and of every delivery permutation, duplicate insertion, strict subset and two-memo interleaving into the real receive side",
-                text="5 unicode memos x 4 zeroth-gram codes x base64/base2 headers x every gram size from the legal minimum to the first single-gram size; for sizes giving <= 3 (quick) / 4 (thorough) grams: all permutations, all permutations with one duplicate at every position, all permutations of all strict subsets, all order-preserving merges with a second memo from another source and signer, also of every permutation of every incomplete subset of the first memo, and duplicate-carrying sequences followed or preceded by the second memo; the inbox must equal the multiset of complete memos with text, source and signer id.",
+                text="5 unicode memos x 4 zeroth-gram codes x base64/base2 headers x every gram size from the legal minimum to the first single-gram size, and requested sizes below the minimum (the setter must raise them to a size that works); for sizes giving <= 3 (quick) / 4 (thorough) grams: all permutations, all permutations with one duplicate at every position, all permutations of all strict subsets, all order-preserving merges with a second memo from another source and signer, also of every permutation of every incomplete subset of the first memo, and duplicate-carrying sequences followed or preceded by the second memo; the inbox must equal the multiset of complete memos with text, source and signer id.",
                 note="Recorded KNOWN-FINDINGs: rend fails for the smallest legal base2 gram sizes; a duplicate of an already delivered memo is delivered again; a signed gram ahead of its zeroth gram is dropped. Counter-based memo ids, fixed ed25519 seeds."),
     "C21": dict(cat="fault_enumeration", eng="E1 full answer tree over scripted transport / fake datagram socket", ref="3 (memo group)",
                 tech="complete enumeration of the tree of transport answers (accept all / 0 / 1 / len-1 bytes, would-block, unreachable errnos) to the first 4/6 sends, real Memoer, udp and uxd PeerMemoer transmit servicing, per-destination ideal-sender oracle",
